@@ -19,15 +19,20 @@ from . import common
 from . import integ_common as ic
 
 PROP = "C02"
-LEAN_MODULES = ["MiciVerif.Props.C02"]
-LEAN_EXTRA = ["MiciVerif.Model.Integrators", "MiciVerif.Proto"]
+LEAN_MODULES = ["MiciVerif.Props.C02", "MiciVerif.Props.C02Implicit"]
+LEAN_EXTRA = ["MiciVerif.Model.Integrators", "MiciVerif.Lemmas.IntegratorsExec", "MiciVerif.Proto", "MiciVerif.Model.IntegratorsImplicit"]
 
 
 # ---------------------------------------------------------------------------------------
 # FILLED IN BY LEAN-SIDE AUTHOR
-def correspondence(ctx):  # noqa: ARG001
-    """Model-vs-implementation comparison (Lean driver).  FILLED IN BY LEAN-SIDE AUTHOR."""
-    return
+def correspondence(ctx):
+    """Lean model (Driver/C02.lean, exact rationals) vs the real integrators on the same inputs."""
+    from . import integ_corr
+
+    rng = common.rng_for(ctx, 1)
+    integ_corr.coefficient_cases(ctx, rng, ctx.n(30, 300))
+    integ_corr.step_cases(ctx, rng, ctx.n(70, 500))
+    integ_corr.implicit_cases(ctx, rng, ctx.n(40, 300))
 
 
 # ---------------------------------------------------------------------------------------
